@@ -89,7 +89,10 @@ def eval_case(case):
         def join(self):
             pass
 
-    fake = types.SimpleNamespace(cpu_count=lambda: 10**9, Process=Recorder)
+    # with n_cores omitted the command uses every core of the machine
+    omit = bool(case.get('omit_cores'))
+    fake = types.SimpleNamespace(cpu_count=(lambda: C) if omit else (lambda: 10**9),
+                                 Process=Recorder)
     real = cli.multiprocessing
     cli.multiprocessing = fake
     fails = []
@@ -97,7 +100,7 @@ def eval_case(case):
         for job in range(1, N + 1):
             cli.run_parallel.callback(
                 data_dir=d, trials=trials, n_nodes=N, job_idx=job,
-                n_cores=C, delete_existing=False)
+                n_cores=None if omit else C, delete_existing=False)
     finally:
         cli.multiprocessing = real
 
@@ -176,7 +179,8 @@ def large_cases(draw):
         st.sampled_from([100, 1000, 5000, 10000, 10**5, 10**6]).map(
             lambda t: max(t, lo)),
     ))
-    return {'n_inputs': n_inputs, 'n_nodes': N, 'n_cores': C, 'trials': trials}
+    return {'n_inputs': n_inputs, 'n_nodes': N, 'n_cores': C, 'trials': trials,
+            'omit_cores': draw(st.booleans())}
 
 
 def run(ctx):
